@@ -31,8 +31,15 @@ impl TokenSet {
     }
 }
 
+// Only kinds with discriminant < 128 can be members of a set. Kinds beyond that
+// (there are more than 128 of them) are never members, rather than overflowing the shift.
 const fn mask(kind: SyntaxKind) -> u128 {
-    1u128 << (kind as usize)
+    let k = kind as usize;
+    if k < 128 {
+        1u128 << k
+    } else {
+        0
+    }
 }
 
 #[test]
